@@ -48,6 +48,8 @@ def _pred(spec, k):
         return lambda s: s[0] in "AC" and s[-1] != "T"
     if kind == "prefix":
         return lambda s: not s.startswith("G")
+    if kind == "first-a":
+        return lambda s: s.startswith("A")
     if kind == "parity":
         return lambda s: (sum("ACGT".index(c) * (i + 1) for i, c in enumerate(s)) % 3) != 0
     if kind == "all":
@@ -87,7 +89,7 @@ def _pred(spec, k):
 
 def make_user_filter(dsw, spec, k, log):
     pred = _pred(spec, k)
-    conv = {"bool": bool, "npbool": np.bool_, "int": int}[spec["ret"]]
+    conv = {"bool": bool, "npbool": np.bool_, "int": int, "uint8": np.uint8, "int8": np.int8, "uint16": np.uint16}[spec["ret"]]
     style = spec["style"]
 
     def body(args, kwargs, s):
@@ -167,7 +169,7 @@ def generate(ctx):
     for _ in range(ctx.pick(600, 5000)):
         k = rng.choice(ctx.pick([1, 3, 3, 4], [1, 3, 4, 4, 5, 5]))
         mask = gens.rand_mask(rng, k, rng.choice([0.02, 0.2, 0.5, 0.8, 0.98, 1.0]))
-        yield "valid_graph", dict(k=k, mask=G.mask_to_hex(mask), dtype=rng.choice(["bool", "int64", "int8", "uint8", "truthy"]), fam="random")
+        yield "valid_graph", dict(k=k, mask=G.mask_to_hex(mask), dtype=rng.choice(["bool", "int64", "int8", "uint8", "truthy", "float64"]), fam="random")
     preds = ["forbidden", "forbidden", "first-ne-last", "positional", "prefix", "parity", "all", "none", "one", "doc-gc"]
     for _ in range(ctx.pick(600, 5000)):
         k = rng.choice(ctx.pick([1, 2, 3, 4, 5], [1, 2, 3, 4, 5, 6]))
@@ -182,7 +184,7 @@ def generate(ctx):
         else:
             yield "find", dict(k=k, kind="user", spec=dict(pred=rng.choice(preds), seed=rng.getrandbits(30), p=rng.choice([0.1, 0.5, 0.9]),
                                                            w=rng.randint(1, k + 1), bias=rng.choice([0.0, 0.1, 0.25, 0.5]),
-                                                           ret=rng.choice(["bool", "bool", "npbool", "int"]),
+                                                           ret=rng.choice(["bool", "bool", "npbool", "int", "uint8", "int8", "uint16"]),
                                                            style=rng.choice(["documented", "documented", "dna_sequence", "posonly"])))
 
 
@@ -339,7 +341,7 @@ def floors(agg, tier):
     out = []
     c = agg["classes"]
     for name, need in (("find|accepts some", 500), ("find|accepts none", 30), ("user|style=documented", 200),
-                       ("user|style=dna_sequence", 50), ("user|style=posonly", 50), ("user|ret=npbool", 50), ("user|ret=int", 50),
+                       ("user|style=dna_sequence", 50), ("user|style=posonly", 50), ("user|ret=npbool", 50), ("user|ret=int", 50), ("user|ret=uint8", 50), ("user|ret=int8", 50),
                        ("user|pred=positional", 30), ("user|pred=doc-gc", 30), ("local filter", 300),
                        ("valid-graph|empty mask", 2), ("valid-graph|non-empty mask", 100000),
                        ("valid-graph|preceded by an unrelated coding-graph call", 1000), ("valid-graph|preceded by an edited complete accessor", 500),
